@@ -453,3 +453,61 @@ func (s *Source) TeardownCounts() []int64 {
 func (s *Source) Summary() string {
 	return fmt.Sprintf("%s{sub=%d torn=%d live=%d maxlive=%d}", s.Name, s.Subscribed.Load(), s.TornDown.Load(), s.Live.Load(), s.MaxLive.Load())
 }
+
+// Multi is a source whose single subscription is fed by several goroutines at
+// once, each playing its own (possibly hostile) script. Only meaningful with
+// the safe / eventually-safe constructors.
+type Multi struct {
+	Name    string
+	Mode    string
+	Scripts []Script
+	Yield   bool
+
+	mu        sync.Mutex
+	emissions []Emission
+	wg        sync.WaitGroup
+	TornDown  atomic.Int64
+}
+
+func (m *Multi) Observable() ro.Observable[int] {
+	mode := ro.ConcurrencyModeSafe
+	switch m.Mode {
+	case "unsafe":
+		mode = ro.ConcurrencyModeUnsafe
+	case "eventually":
+		mode = ro.ConcurrencyModeEventuallySafe
+	}
+	return ro.NewObservableWithConcurrencyMode(func(ctx context.Context, dest ro.Observer[int]) ro.Teardown {
+		start := make(chan struct{})
+		for g, sc := range m.Scripts {
+			g, sc := g, sc
+			m.wg.Add(1)
+			go func() {
+				defer m.wg.Done()
+				<-start
+				for k, n := range sc {
+					tag := fmt.Sprintf("%s.g%d#%d", m.Name, g, k)
+					ictx := context.WithValue(ctx, rec.ItemKey, tag)
+					em := Emission{Tag: tag, N: n, SubIdx: g, Begin: rec.Tick()}
+					deliver(dest, ictx, n)
+					em.End = rec.Tick()
+					m.mu.Lock()
+					m.emissions = append(m.emissions, em)
+					m.mu.Unlock()
+					if m.Yield {
+						runtime.Gosched()
+					}
+				}
+			}()
+		}
+		close(start)
+		return func() { m.TornDown.Add(1) }
+	}, mode)
+}
+
+func (m *Multi) Wait() { m.wg.Wait() }
+func (m *Multi) Emissions() []Emission {
+	m.mu.Lock()
+	defer m.mu.Unlock()
+	return append([]Emission(nil), m.emissions...)
+}
